@@ -17,3 +17,25 @@ def picky(value):
     if getattr(value, 'ka', None) == 'bad':
         raise ValueError('picky section datatype refuses ka=bad')
     return value
+
+
+# ---- C19: counting datatypes with an injectable failure point
+COUNTER = {'n': 0, 'fail_at': None, 'sn': 0, 'sfail_at': None}
+
+
+def counted_int(value):
+    k = COUNTER['n']
+    COUNTER['n'] = k + 1
+    f = COUNTER['fail_at']
+    if f is not None and f == k:
+        raise ValueError('injected datatype failure at call %d' % k)
+    return int(value)
+
+
+def counted_section(value):
+    k = COUNTER['sn']
+    COUNTER['sn'] = k + 1
+    f = COUNTER['sfail_at']
+    if f is not None and f == k:
+        raise ValueError('injected section datatype failure at call %d' % k)
+    return value
